@@ -65,6 +65,41 @@ def rwp : R String := do
                (if out.quat then "1" else "0"), toString out.parts.length, toString out.logw.length]
               ++ intsStr out.parts ++ intsStr par ++ out.logw.map floatStr))
 
+/-- `seqcfg kind ratio seed ncalls` — the object of a `seq` case (harness `op_seq`): built by the constructor overload
+    `kind % 100` selects, handed over (copy / move construction / assignment) before the first call or, for
+    `kind ≥ 100`, after it, serving `ncalls` calls.  Output: `ok prior ratio(hex) seed drawn` of the object in use at
+    the end — the configuration every one of its calls must exhibit. -/
+def seqcfg : R String := do
+  let kind ← nat
+  let ratio ← flt
+  let seed ← nat
+  let ncalls ← nat
+  done
+  let k := kind % 100
+  let late := decide (kind ≥ 100)
+  let other : Float := if ratio == 0.5 then 0.25 else 0.5
+  let ctor : Option (RsCtor Float) :=
+    if k == 0 || k == 2 || k == 3 || k == 4 || k == 5 then some (.rs seed)
+    else if k == 11 then some .rsDefault
+    else if k == 1 || k == 6 || k == 7 then some (.rwp3 ratio seed)
+    else if k == 9 || k == 12 then some (.rwp2 ratio)
+    else if k == 10 || k == 13 then some .rwp1
+    else none
+  let hand : List (RsOp Float) :=
+    if k == 2 then [.copyConstruct]
+    else if k == 4 || k == 6 || k == 12 then [.moveConstruct]
+    else if k == 3 then [.moveAssign ((RsCtor.rs 12345).build)]
+    else if k == 5 then [.copyAssign ((RsCtor.rs 777).build)]
+    else if k == 7 || k == 13 then [.moveAssign ((RsCtor.rwp3 other 999).build)]
+    else []
+  match ctor with
+  | none => pure "bad-kind"
+  | some c =>
+    let calls := fun n => List.replicate n (RsOp.call (α := Float))
+    let ops := if late then calls (min 1 ncalls) ++ hand ++ calls (ncalls - 1) else hand ++ calls ncalls
+    let o := c.build.run ops
+    pure (join ["ok", (if o.prior then "1" else "0"), floatStr o.ratio, toString o.seed, toString o.drawn])
+
 /-! ### C06 -/
 
 def cmdOf : Nat → List SkipCmd
@@ -73,6 +108,7 @@ def cmdOf : Nat → List SkipCmd
 
 def cmdOf1 : Nat → Option SkipCmd
   | 1 => some .predOn | 2 => some .predOff | 3 => some .corOn | 4 => some .corOff | 5 => some .allOn | 6 => some .allOff
+  | 7 => some .other
   | _ => none
 
 /-- `sis N lin circ K D prior ratio u_0…u_{D-1} E (w0… x0…)×E (ncmd cmd… freeze valid reset shift l_0…l_{N-1})×K`
@@ -82,7 +118,7 @@ def cmdOf1 : Nat → Option SkipCmd
     One output block per step:
     `S cor.n cor.lin cor.circ |cor.parts| |cor.logw| pred.n pred.lin pred.circ |pred.parts| trig neff(hex)
        |parents| parents… weights(hex)… states(hex)… L |logged| logged corrected weights(hex)…` -/
-def sis : R String := do
+def sisG (ext : Bool) : R String := do
   let n ← nat; let lin ← nat; let circ ← nat; let k ← nat
   let d ← nat
   let prior ← bool
@@ -96,6 +132,11 @@ def sis : R String := do
   let evs ← listOf k (do
     let nc ← nat
     let cs ← listOf nc nat
+    -- `sis2`: commands arriving during freeze_measurements() / during the likelihood evaluation (or, when that does not run, in log())
+    let nm ← (if ext then nat else pure 0)
+    let cm ← listOf nm nat
+    let nl ← (if ext then nat else pure 0)
+    let cl ← listOf nl nat
     let fr ← bool
     let va ← bool
     let rst ← bool
@@ -103,7 +144,8 @@ def sis : R String := do
     let l ← listOf n flt
     let pr : PSet Float Float → PSet Float Float → PSet Float Float :=
       fun prev pred => { pred with parts := prev.parts.map (fun x => x + sh), logw := prev.logw }
-    let ev : SisEvent Float Float := { cmds := cs.filterMap cmdOf1, freezeOk := fr, likValid := va, lik := l, predict := pr }
+    let ev : SisEvent Float Float := { cmds := cs.filterMap cmdOf1, freezeOk := fr, likValid := va, lik := l, predict := pr,
+                                       cmdsMid := cm.filterMap cmdOf1, cmdsLate := cl.filterMap cmdOf1 }
     pure (ev, rst))
   done
   let cfg : SisCfg Float := { N := n, tiny := Float.ofBits 0x0010000000000000 }
@@ -129,9 +171,14 @@ def sis : R String := do
                   (if s.resampled then "1" else "0"), floatStr nf, toString s.parents.length]
                  ++ intsStr s.parents ++ s.cor.logw.map floatStr ++ s.cor.parts.map floatStr
                  ++ ["L", toString lg.length] ++ lg.map floatStr ++ ["T", toString st.step]
+                 ++ (if ext then ["F", (if s.skipPred then "1" else "0"), (if s.skipCor then "1" else "0"),
+                                  (if (ev.cmds ++ ev.cmdsMid ++ ev.cmdsLate).all cmdAccepted then "1" else "0")] else [])
       let s' := if rst then sisRun rsmp cfg s [SisOp.reset (initOf (ep + 1))] else s
       (s', (if rst then ep + 1 else ep), out.push (join blk))) (s0, 0, #[])
   pure (join ("ok" :: outs.toList))
+
+def sis : R String := sisG false
+def sis2 : R String := sisG true
 
 /-- `sisp N lin circ K D u… w0… x0… (freeze valid predx_0…predx_{N-1} |l| l…)×K` — the recursion with the
     prediction outcome given as data (first state entry of every predicted particle, as the shipped
@@ -185,7 +232,9 @@ def handle (op : String) (args : List String) : Option String :=
   | "rsf" => some ((run rsf args).getD "bad-args")
   | "rsw" => some ((run rsw args).getD "bad-args")
   | "rwp" => some ((run rwp args).getD "bad-args")
+  | "seqcfg" => some ((run seqcfg args).getD "bad-args")
   | "sis" => some ((run sis args).getD "bad-args")
+  | "sis2" => some ((run sis2 args).getD "bad-args")
   | "glik" => some ((run glik args).getD "bad-args")
   | "sisp" => some ((run sisp args).getD "bad-args")
   | _ => none
